@@ -3,6 +3,7 @@
 
 pub mod c03;
 pub mod c04;
+pub mod c10;
 pub mod director;
 pub mod manager;
 pub mod run;
